@@ -2,9 +2,20 @@ import Dmn.Model.Sexp
 import Dmn.Model.Eval
 import Dmn.Driver.Codec
 import Dmn.Model.NumD128
+import Dmn.Gen.BifNames
+import Dmn.Model.EvalNames
 
 /-! Driver handler for C01 / C13: `(c01 eval <fuel> <ast> (<ctx>…))` — the scope is the list of
-its contexts, bottom first. -/
+its contexts, bottom first.
+
+* `(c01 evalin <fuel> <ast> (<ctx>…) ((<i> <name> <ast>)…))` — the same, after binding in context
+  `i` of the scope each `name` to the value its `ast` has in the empty scope (function values: the
+  wire format of a value does not carry a function body, so a scope that binds a function value is
+  built on this side from the definition's syntax tree).
+* `(c01 namesin <ast> (<name>…))` — `Eval.namesIn` of the tree for the set of the listed names: does the
+  tree look up only names of the list?  `(c01 namesout <ast> (<name>…))` — for the complement: does the tree
+  look up none of the listed names?
+* `(c01 bifnames)` — the names `Bif::from_str` accepts (regenerated table `Dmn.Gen.bifNames`). -/
 
 namespace Dmn.Driver.C01
 open Dmn Dmn.Codec
@@ -55,8 +66,44 @@ def runEval (fuel : Nat) (a : Ast) (s : Scope) : String :=
         (if v1b != v2 then "shadowing " else "") ++ (if v2 != d then "index" else "")
       s!"({m} {d} ({why}))"
 
+def modifyAt (s : Scope) (i : Nat) (f : Ctx → Ctx) : Scope :=
+  match s, i with
+  | [], _ => []
+  | c :: cs, 0 => f c :: cs
+  | c :: cs, i + 1 => c :: modifyAt cs i f
+
+/-- the scope with the extra bindings of an `evalin` request -/
+def bindIn (fuel : Nat) (s : Scope) : List Sexp → Option Scope
+  | [] => some s
+  | .list [idx, name, a] :: rest =>
+    match Sexp.nat? idx, Sexp.str? name, astOfSexp a with
+    | some i, some n, some a =>
+      match Eval.eval NumOps.d128 bifPosStub bifNamedStub fuel a [] with
+      | .ok (v, _) => bindIn fuel (modifyAt s i (fun c => Ctx.set c n v)) rest
+      | _ => none
+    | _, _, _ => none
+  | _ => none
+
 def handle (args : List Sexp) : String :=
   match args with
+  | [.atom "namesin", a, .list names] =>
+    match astOfSexp a, names.mapM Sexp.str? with
+    | some a, some ns => toString (Sexp.ofBool (Eval.namesIn (fun k => ns.contains k) a))
+    | _, _ => "(error bad-args)"
+  | [.atom "namesout", a, .list names] =>
+    match astOfSexp a, names.mapM Sexp.str? with
+    | some a, some ns => toString (Sexp.ofBool (Eval.namesIn (fun k => !ns.contains k) a))
+    | _, _ => "(error bad-args)"
+  | [.atom "bifnames"] =>
+    toString (Sexp.list (Dmn.Gen.bifNames.map (fun p => Sexp.ofStr p.1)))
+  | [.atom "evalin", fuel, a, .list ctxs, .list binds] =>
+    match Sexp.nat? fuel, astOfSexp a, ctxs.mapM ctxOfSexp with
+    | some fuel, some a, some s =>
+      match bindIn fuel s binds with
+      | some s => runEval fuel a s
+      | none => "(error bad-bindings)"
+    | _, none, _ => "(error bad-ast)"
+    | _, _, _ => "(error bad-args)"
   | [.atom "eval", fuel, a, .list ctxs] =>
     match Sexp.nat? fuel, astOfSexp a, ctxs.mapM ctxOfSexp with
     | some fuel, some a, some s => runEval fuel a s
